@@ -77,6 +77,10 @@ SumOverIndices(a, idx) ==
 Flat(len, n, i, j) == LET f == i * n + j IN IF f < 0 THEN len + f ELSE f
 IvGet(a, n, i, j) == a[Flat(Len(a), n, i, j) + 1]
 IvSet(a, n, i, j, v) == [a EXCEPT ![Flat(Len(a), n, i, j) + 1] = v]
+\* the view also accepts a plain (flat, possibly negative) index
+FlatK(len, k) == IF k < 0 THEN len + k ELSE k
+IvGetFlat(a, k) == a[FlatK(Len(a), k) + 1]
+IvSetFlat(a, k, v) == [a EXCEPT ![FlatK(Len(a), k) + 1] = v]
 IvInRange(a, n, i, j) == Flat(Len(a), n, i, j) \in 0..(Len(a) - 1)
 NrFullIntervals(a, n) == Len(a) \div n
 NrRows(a, n) == (Len(a) + n - 1) \div n
